@@ -126,6 +126,7 @@ func (w *wireRun) judgeVariant4(conf string, req []byte, obs []wireObs, desc str
 	for _, p := range []string{"C11", "C15", "C01", "C17", "C13"} {
 		ctx.Eval(p, 1)
 	}
+	_ = ctx
 	var replies [][]byte
 	var first *wireObs
 	for i := range obs {
@@ -149,6 +150,12 @@ func (w *wireRun) judgeVariant4(conf string, req []byte, obs []wireObs, desc str
 	rp, err := pkt.Parse4(first.f4.Payload)
 	if err != nil {
 		return nil, first
+	}
+	if mt, _ := rp.Get(53); len(mt) == 1 && (mt[0] == 2 || mt[0] == 5) && w.varServerID != nil {
+		ctx.Eval("C14", 1)
+		if sid, n := rp.Get(54); n != 1 || !bytes.Equal(sid, w.varServerID) {
+			ctx.Viol("C14", "wire:reply-server-id", "%s, %s: the reply (type %d, %d bytes) carries server identifier %v (%d instances), this server's identifier is %v", conf, desc, mt[0], len(first.f4.Payload), net.IP(sid), n, net.IP(w.varServerID))
+		}
 	}
 	return rp, first
 }
@@ -209,10 +216,13 @@ func (w *wireRun) variants(dir string) {
 		for i := 0; i < 70; i++ {
 			dns = append(dns, fmt.Sprintf("10.53.%d.%d", i/8, 1+i%8*3))
 		}
+		// 8 names without any common parent (more than 256 bytes encoded), then names that share a parent which
+		// occurs for the first time behind that point, then names sharing an early parent
 		var sd []string
-		for i := 0; i < 12; i++ {
-			sd = append(sd, fmt.Sprintf("zone-%02d.a-rather-long-subdomain-name.example%d.org", i, i%3))
+		for i := 0; i < 8; i++ {
+			sd = append(sd, fmt.Sprintf("zone-%02d.a-rather-long-subdomain-name-%d.example%d.org", i, i, i))
 		}
+		sd = append(sd, "alpha.late-parent.example.net", "beta.late-parent.example.net", "gamma.beta.late-parent.example.net", "zone-00x.a-rather-long-subdomain-name-0.example0.org")
 		chain := []model.OptConf{{Plugin: "netmask", Args: []string{"255.255.255.0"}}, {Plugin: "router", Args: []string{"10.77.0.1"}},
 			{Plugin: "dns", Args: dns}, {Plugin: "searchdomains", Args: sd}}
 		conf := fmt.Sprintf(`server4:
@@ -224,9 +234,15 @@ func (w *wireRun) variants(dir string) {
     - router: 10.77.0.1
     - dns: %s
     - searchdomains: %s
+server6:
+  listen: ['[::]']
+  plugins:
+    - server_id: LL 00:de:ad:be:ef:00
+    - dns: 2001:db8::53
 `, dir, strings.Join(dns, " "), strings.Join(sd, " "))
-		name := "real binary, listen 0.0.0.0:6767, 70 DNS servers and a 12-name search list (option values > 255 bytes)"
-		s, state := w.startSrv(dir, "alt", conf, nil, []string{"/proc/net/udp:1A6F"}, 10*time.Second, nil)
+		name := "real binary, dual-stack, DHCPv4 on 0.0.0.0:6767, 70 DNS servers and a 12-name search list (option values > 255 bytes)"
+		w.varServerID = []byte{10, 77, 0, 1}
+		s, state := w.startSrv(dir, "alt", conf, nil, []string{"/proc/net/udp:1A6F", "/proc/net/udp6:0223"}, 10*time.Second, nil)
 		if state != "ready" {
 			lg := ""
 			if s != nil {
@@ -305,7 +321,97 @@ func (w *wireRun) variants(dir string) {
 				ctx.Count("wire.alt_port.relay_replies", 1)
 			}
 		}
+		// DHCPv4-over-DHCPv6 queries (RFC 7341, message type 20 carrying a DHCPv4 message in option 87) are not
+		// among the messages this server answers; least of all when the DHCPv4 message inside is not a request
+		if ll := w.llOf("ve0"); ll != nil {
+			cmac := []byte{0x02, 0xaa, 0x00, 0x00, 0x00, 0x50}
+			var src16, dst16 [16]byte
+			copy(src16[:], net.ParseIP("fe80::aa:50").To16())
+			copy(dst16[:], ll.To16())
+			for _, op := range []byte{1, 2, 0, 3} {
+				w.xid++
+				inner := pkt.Request4(0x50000+w.xid, cmac, 1, pkt.O4(55, 1, 3, 6))
+				inner.Op = op
+				q := pkt.Msg6(20, w.xid&0xffffff, []pkt.Opt6{pkt.O6(87, inner.Bytes())})
+				obs := w.exchange("ve1", pkt.BuildFrame6(cmac, w.ve0mac, src16, dst16, 546, 547, q), 150*time.Millisecond)
+				ctx.Eval("C12", 1)
+				ctx.Eval("C11", 1)
+				if w.srvDied(s, name, "a DHCPv4-QUERY", q) {
+					w.altPort = 0
+					return
+				}
+				for i := range obs {
+					if obs[i].f6 == nil {
+						continue
+					}
+					ctx.Viol("C12", "wire:answered-unsupported-type", "%s: a DHCPv4-QUERY (message type 20, not one of the types this server answers) carrying a DHCPv4 message with opcode %d was answered with %d bytes", name, op, len(obs[i].f6.Payload))
+					if op != 1 {
+						ctx.Viol("C11", "wire:non-request-answered", "%s: a DHCPv4 message with opcode %d (not a BOOTREQUEST), delivered inside a DHCPv4-QUERY, was answered", name, op)
+					}
+				}
+				ctx.Count("wire.alt_port.dhcp4o6_queries", 1)
+			}
+		}
 		w.altPort = 0
+		s.stop()
+	}
+
+	// ------------------------------------------------------------------ replies larger than the link MTU
+	{
+		var dns []string
+		for i := 0; i < 400; i++ {
+			dns = append(dns, fmt.Sprintf("10.54.%d.%d", i/200, 1+i%200))
+		}
+		conf := fmt.Sprintf(`server4:
+  listen: ['0.0.0.0']
+  plugins:
+    - server_id: 10.77.0.1
+    - range: %s/leases-big.db 10.77.0.100 10.77.0.180 60s
+    - netmask: 255.255.255.0
+    - dns: %s
+`, dir, strings.Join(dns, " "))
+		chain := []model.OptConf{{Plugin: "netmask", Args: []string{"255.255.255.0"}}, {Plugin: "dns", Args: dns}}
+		name := "real binary, listen 0.0.0.0, 400 DNS servers (replies larger than the 1500-byte MTU)"
+		w.varServerID = []byte{10, 77, 0, 1}
+		s, state := w.startSrv(dir, "big", conf, nil, []string{"/proc/net/udp:0043"}, 10*time.Second, nil)
+		if state != "ready" {
+			lg := ""
+			if s != nil {
+				lg = clipStr(s.log(), 1200)
+				s.stop()
+			}
+			ctx.Inconclusive("wire/oversize: the server did not come up (%s): %s", state, lg)
+			return
+		}
+		for _, link := range []string{"ve1", "vf1"} {
+			mac := []byte{0x02, 0xcc, byte(w.rng.Intn(256)), byte(w.rng.Intn(256)), 0, byte(w.rng.Intn(256))}
+			// a reply that needs a link-level unicast and cannot fit one frame: nothing can be sent - or, if
+			// something is sent, it is still this server's complete answer
+			w.xid++
+			p := pkt.Request4(0x60000+w.xid, mac, 1, pkt.O4(55, 1, 6))
+			req := p.Bytes()
+			obs := w.exchange(link, pkt.BuildFrame4(mac, bcast, [4]byte{}, [4]byte{255, 255, 255, 255}, 68, 67, req), 400*time.Millisecond)
+			rp, o := w.judgeVariant4(name, req, obs, "DISCOVER on "+link+" (link-level answer of about 1.9 kB)")
+			if w.srvDied(s, name, "a DISCOVER answered at link level", req) {
+				return
+			}
+			if o != nil {
+				ctx.Count("wire.oversize.l2_replies_sent", 1)
+				w.checkOpts(name, "link-level OFFER", rp, chain, []byte{1, 6})
+			} else {
+				ctx.Count("wire.oversize.l2_nothing_sent", 1)
+			}
+			// a small request right after: the server still works
+			w.xid++
+			p = pkt.Request4(0x60000+w.xid, mac, 1, pkt.O4(55, 1))
+			p.Flags = 0x8000
+			req = p.Bytes()
+			obs = w.exchange(link, pkt.BuildFrame4(mac, bcast, [4]byte{}, [4]byte{255, 255, 255, 255}, 68, 67, req), 400*time.Millisecond)
+			if w.srvDied(s, name, "a broadcast-flag DISCOVER", req) {
+				return
+			}
+			_ = obs
+		}
 		s.stop()
 	}
 
@@ -322,6 +428,7 @@ func (w *wireRun) variants(dir string) {
     - router: 10.77.0.1
 `, dir)
 		name := "real binary without CAP_NET_RAW, listen 0.0.0.0"
+		w.varServerID = []byte{10, 77, 0, 1}
 		s, state := w.startSrv(dir, "noraw", conf, []string{"setpriv", "--bounding-set", "-net_raw", "--"}, []string{"/proc/net/udp:0043"}, 10*time.Second, nil)
 		if state != "ready" {
 			lg := ""
@@ -393,6 +500,7 @@ func (w *wireRun) variants(dir string) {
 `, dir)
 		chain := []model.OptConf{{Plugin: "netmask", Args: []string{"255.255.255.0"}}, {Plugin: "router", Args: []string{"10.79.0.1"}}, {Plugin: "dns", Args: []string{"10.79.0.2", "10.79.0.3"}}}
 		name := "real binary, listen 10.79.0.1 (the address is assigned to ve0 600 ms after the server was started)"
+		w.varServerID = []byte{10, 79, 0, 1}
 		exec.Command("ip", "addr", "del", "10.79.0.1/24", "dev", "ve0").Run()
 		s, state := w.startSrv(dir, "late", conf, nil, []string{"/proc/net/udp:0043"}, 5*time.Second, func() {
 			time.Sleep(600 * time.Millisecond)
@@ -488,7 +596,7 @@ func (wirevarEngine) Run(ctx *fw.Ctx, cs any) {
 		}
 	}()
 	w.variants(dir)
-	for _, pr := range []string{"C01", "C11", "C13", "C15", "C17"} {
+	for _, pr := range []string{"C01", "C11", "C13", "C14", "C15", "C17"} {
 		ctx.Nontrivial(pr, fmt.Sprintf("wirevar/%d", c.Seed))
 		if ctx.WantSample(pr) {
 			ctx.Sample(pr, map[string]any{"engine": "wirevar", "variants": "alt-port+long-options, no-CAP_NET_RAW, late-listen-address"})
